@@ -323,6 +323,30 @@ Definition no_guard_errors (p : prog) (c : cfg) : bool :=
                      g_required g && g_enum g && negb (g_prompt g && negb (cf_yes c)) &&
                      match g_precond g with Some false => false | _ => true end && negb (t_internal tk)) p.
 
+(* size of the fully expanded call tree below task t (every reference counted), saturating:
+   fuel exhausted (a cyclic program) counts as "huge" *)
+Fixpoint tree_size (fuel : nat) (p : prog) (huge : nat) (t : nat) : nat :=
+  match fuel with
+  | O => huge
+  | S f =>
+      let tk := get_task p t in
+      S (fold_left (fun acc d => acc + tree_size f p huge (c_task d)) (t_deps tk) 0 +
+         fold_left (fun acc cm => match cm with
+                                  | CallC cl | DeferCall cl => acc + tree_size f p huge (c_task cl)
+                                  | _ => acc end) (t_cmds tk) 0)
+  end.
+
+(* can the call counter (MaximumTaskCall) be reached at all: only if the expanded call tree has
+   that many task references (always "yes" for cyclic programs) *)
+Definition callcount_possible (p : prog) (c : cfg) : bool :=
+  Nat.leb (cf_maxcall c)
+          (fold_left (fun acc r => acc + tree_size (S (length p)) p (cf_maxcall c) (c_task r)) (cf_roots c) 0).
+
+(* the only source of errors are failing commands: no task can fail through a guard and the call
+   counter cannot trip (otherwise the errgroup may report that error first and it legitimately wins) *)
+Definition only_cmd_errors (p : prog) (c : cfg) : bool :=
+  no_guard_errors p c && negb (callcount_possible p c).
+
 Definition mon_C03_status (p : prog) (c : cfg) (tr : list event) (r : res) : bool :=
   (* a failure that reaches the top makes Run fail *)
   forallb (fun '(a, i) => if reaches_root p c a then match r with RErr _ => true | ROk => false end else true)
@@ -333,8 +357,10 @@ Definition mon_C03_status (p : prog) (c : cfg) (tr : list event) (r : res) : boo
   match failing_ends p c tr with
   | [(a, i)] =>
       if reaches_root p c a then
-        match r with RErr (ETaskRun (Some n)) => Nat.eqb n (exit_of p c a i) | _ => false end
-      else if no_guard_errors p c && negb (existsb (fun e => match e with EvSkipping _ _ => true | _ => false end) tr)
+        if only_cmd_errors p c && negb (existsb (fun e => match e with EvSkipping _ _ => true | _ => false end) tr)
+        then match r with RErr (ETaskRun (Some n)) => Nat.eqb n (exit_of p c a i) | _ => false end
+        else match r with RErr _ => true | ROk => false end
+      else if only_cmd_errors p c && negb (existsb (fun e => match e with EvSkipping _ _ => true | _ => false end) tr)
            (* (a caller of a shared task whose one execution was cancelled under somebody else's
               context legitimately fails, so runs with skipped callers are not judged here) *)
       then match r with ROk => true | _ => false end else true
@@ -499,25 +525,6 @@ Definition own_failure (p : prog) (c : cfg) (a : aid) (tr : list event) : option
       end
   | _ => None
   end.
-
-(* size of the fully expanded call tree below task t (every reference counted), saturating:
-   fuel exhausted (a cyclic program) counts as "huge" *)
-Fixpoint tree_size (fuel : nat) (p : prog) (huge : nat) (t : nat) : nat :=
-  match fuel with
-  | O => huge
-  | S f =>
-      let tk := get_task p t in
-      S (fold_left (fun acc d => acc + tree_size f p huge (c_task d)) (t_deps tk) 0 +
-         fold_left (fun acc cm => match cm with
-                                  | CallC cl | DeferCall cl => acc + tree_size f p huge (c_task cl)
-                                  | _ => acc end) (t_cmds tk) 0)
-  end.
-
-(* can the call counter (MaximumTaskCall) be reached at all: only if the expanded call tree has
-   that many task references (always "yes" for cyclic programs) *)
-Definition callcount_possible (p : prog) (c : cfg) : bool :=
-  Nat.leb (cf_maxcall c)
-          (fold_left (fun acc r => acc + tree_size (S (length p)) p (cf_maxcall c) (c_task r)) (cf_roots c) 0).
 
 (* may a's context have been cancelled while its failing command was winding up (then the command
    ends with "context canceled" instead of its exit status and EXIT_CODE is legitimately unset):
